@@ -1234,9 +1234,16 @@ func (sc *serverConn) handleHeaderFrame(strm *Stream, fr *FrameHeader) error {
 		return NewGoAwayError(ProtocolError, "stream that depends on itself")
 	}
 
-	// Only a HEADERS or PUSH_PROMISE frame opens a header block, and only when
-	// there is nothing left over from a frame that cut a field in half.
-	blockStart := fr.Type() != FrameContinuation && len(strm.previousHeaderBytes) == 0
+	// A dynamic table size update may come before the first field of a header
+	// block and nowhere else. The frame is not what decides that: the first
+	// field may only arrive in a CONTINUATION frame, and bytes left over from a
+	// frame that cut it in half are decoded again from their start, a size
+	// update in front of them included (applying one twice changes nothing).
+	if fr.Type() != FrameContinuation {
+		strm.fieldSeen = false
+	}
+
+	blockStart := !strm.fieldSeen
 
 	// Appending to the stream's own buffer and handing it back keeps the
 	// capacity across frames instead of allocating a header block every time.
@@ -1261,7 +1268,14 @@ func (sc *serverConn) handleHeaderFrame(strm *Stream, fr *FrameHeader) error {
 	for len(b) > 0 {
 		pb := b
 
-		b, err = sc.dec.nextField(hf, blockStart, fieldsProcessed, b)
+		var got bool
+
+		b, got, err = sc.dec.nextField(hf, blockStart, fieldsProcessed, b)
+		if err == nil && !got {
+			// the fragment ended on a dynamic table size update
+			break
+		}
+
 		if err != nil {
 			// ErrUnexpectedSize means a header field spills past the bytes we
 			// currently have. That is only legal when more frames are coming:
@@ -1417,6 +1431,10 @@ func (sc *serverConn) handleHeaderFrame(strm *Stream, fr *FrameHeader) error {
 		fieldsProcessed++
 	}
 
+	if fieldsProcessed > 0 {
+		strm.fieldSeen = true
+	}
+
 	// The verdict waits for the end of the block: resetting the stream now
 	// would leave the CONTINUATION frames that complete the block with no
 	// stream to be decoded on.
@@ -1440,7 +1458,7 @@ func (sc *serverConn) discardHeaderBlock(fr *FrameHeader) error {
 	var err error
 
 	for len(b) > 0 && err == nil {
-		b, err = sc.dec.nextField(hf, true, fields, b)
+		b, _, err = sc.dec.nextField(hf, true, fields, b)
 		fields++
 	}
 
